@@ -67,7 +67,8 @@ class ZemaxToOpticConverter:
         elif surf_type == 'even_asphere':
             coefficients = []
             for k in range(8):
-                coefficients.append(data[f'param_{k}'])
+                # PARM lines that are absent from the file are zero
+                coefficients.append(data.get(f'param_{k}', 0.0))
             return coefficients
         else:
             raise ValueError('Unsupported surface type.')
